@@ -151,6 +151,7 @@ def finish(pid, tier, seed, t0, results, lemma_results, standin_results, known, 
                 if k:
                     known_hits.append((k, o))
                     nf += 1
+                    total += 1
                 elif not in_baseline(r["target"], o["id"]):
                     # refuted, but this obligation has no counterpart that was proved on the baseline tree (e.g. an assertion or a
                     # call introduced by the change, which the abstraction of the contract cannot decide): undecided, not a violation
@@ -160,6 +161,7 @@ def finish(pid, tier, seed, t0, results, lemma_results, standin_results, known, 
                 else:
                     violations.append(("obligation", r, o))
                     nf += 1
+                    total += 1
             else:
                 # not discharged and not refuted by a solver: look for a native failing input of the function (bounded search)
                 code = None
